@@ -54,6 +54,14 @@ ex:AS a sh:NodeShape ; sh:targetClass ex:P ;
   sh:sparql [ sh:prefixes ex:prefixes ; sh:message "double of {?value} too big" ;
               sh:select "SELECT $this ?value WHERE { $this ex:n ?value . FILTER (ex:double(?value) > 10) }" ] .
 """,
+    # function declarations of the generic kind (typed sh:SHACLFunction only; with and without a body) next to an ordinary shape
+    "function_kinds": """
+ex:prefixes a owl:Ontology ; sh:declare [ sh:prefix "ex" ; sh:namespace "http://ex.org/"^^xsd:anyURI ] .
+ex:bare a sh:SHACLFunction ; sh:parameter [ sh:path ex:op1 ] ; sh:returnType xsd:integer .
+ex:half a sh:SHACLFunction ; sh:parameter [ sh:path ex:op1 ; sh:datatype xsd:integer ] ; sh:returnType xsd:integer ;
+  sh:prefixes ex:prefixes ; sh:select "SELECT ($op1 / 2 AS ?result) WHERE { }" .
+ex:FK a sh:NodeShape ; sh:targetClass ex:P ; sh:property [ sh:path ex:n ; sh:maxInclusive 10 ] .
+""",
     # literal forms whose reading depends on rdflib's global parsing switches
     "literals": """
 ex:LS a sh:NodeShape ; sh:targetClass ex:P ;
@@ -277,7 +285,9 @@ def gen_themed(rng, theme):
     if theme == "stale_data":
         ops.append(("alloc", "S0", "shapes", SHAPES["bnodes"]))
         ops.append(first())
-        ops += [("edit_data", rng.choice(["city", "street", "drop_addr"]), rng.randrange(1000)) for _ in range(rng.choice([1, 2, 3]))]
+        ops += [("edit_data", rng.choice(["city", "street", "drop_addr", "subclass", "subclass"]), rng.randrange(1000)) for _ in range(rng.choice([1, 2, 3]))]
+        if rng.random() < 0.7:
+            ops.append(("edit_data", "subclass", 2 * rng.randrange(500)))    # a new subclass of the target class, with an instance
         ops += maybe_fail()
         ops.append(plain())
     elif theme == "stale_shapes":
@@ -329,6 +339,16 @@ def gen_themed(rng, theme):
                 ops.append(("realloc", "S0", "shapes", SHAPES["pattern"].replace('sh:flags "i"', rng.choice(['', 'sh:flags "x"', 'sh:flags "i"']).strip() or 'sh:minLength 1')))
             ops += maybe_fail() if rng.random() < 0.2 else []
             ops.append(plain() if rng.random() < 0.7 else ("call", "validate", ("slot", "D0"), ("text", PFX + SHAPES["pattern"].replace(' ; sh:flags "i"', "")), None, {}, None))
+    elif theme == "function_kinds":
+        # a call whose shapes graph declares functions of the generic kind, then (maybe after a failure) a call that USES SPARQL functions
+        ops.append(("alloc", "S0", "shapes", SHAPES["function_kinds"]))
+        api_ = rng.choice(["validate", "validate", "rules"])
+        ops.append(("call", api_, ("slot", "D0"), ("slot", "S0"), None, {"advanced": True} if api_ == "validate" else {}, None))
+        ops += maybe_fail()
+        ops.append(("alloc", "S1", "shapes", SHAPES["advanced"]))
+        ops.append(("call", "validate", ("slot", "D0"), ("slot", "S1"), None, {"advanced": True}, None))
+        if rng.random() < 0.5:
+            ops.append(("call", "rules", ("slot", "D0"), ("slot", "S1"), None, {}, None))
     elif theme == "baked":
         # documents that ship with pySHACL (loaded from its own copies, no network): a call that expands one of them
         # (inference, rules, ontology mix-in) must not leave the expansion behind for the next call
@@ -375,7 +395,7 @@ def gen_themed(rng, theme):
     return ops
 
 
-THEMES = ["stale_data", "stale_shapes", "stale_validator", "reuse", "globals", "modes", "imports", "pattern", "baked", "mixed", "mixed"]
+THEMES = ["stale_data", "stale_shapes", "stale_validator", "reuse", "globals", "modes", "imports", "pattern", "baked", "function_kinds", "mixed", "mixed"]
 
 
 def gen_history(seed, index):
@@ -456,7 +476,7 @@ def gen_history(seed, index):
         for _ in range(rng.choice([0, 1, 1, 2])):
             e = rng.random()
             if e < 0.35:
-                ops.append(("edit_data", rng.choice(["city", "street", "n", "tag", "flag", "drop_addr"]), rng.randrange(1000)))
+                ops.append(("edit_data", rng.choice(["city", "street", "n", "tag", "flag", "drop_addr", "subclass"]), rng.randrange(1000)))
             elif e < 0.7:
                 ops.append(("edit_shapes", rng.choice(["mincount", "ask", "message", "limit", "select", "datatype", "hasvalue", "flags", "pattern"]), rng.randrange(1000)))
             elif e < 0.85:
@@ -484,6 +504,19 @@ def edit_data(g, what, k):
                 g.remove(t)
             if k % 3:
                 g.add((b, p, Literal("%s %d" % (what, k))))
+        return
+    if what == "subclass":
+        # the class hierarchy of the data changes under the same graph object: a further subclass of the target class with an
+        # instance of its own appears, or disappears again
+        from rdflib.namespace import RDFS
+        g.add((EX.d, RDF.type, EX.Q))
+        g.add((EX.d, EX.n, Literal(40 + k % 3)))
+        g.add((EX.d, EX.tag, Literal("p")))
+        g.add((EX.d, EX.tag, Literal("q")))
+        if (EX.Q, RDFS.subClassOf, EX.P) in g and k % 2:
+            g.remove((EX.Q, RDFS.subClassOf, EX.P))
+        else:
+            g.add((EX.Q, RDFS.subClassOf, EX.P))
         return
     subj = [EX.a, EX.b, EX.c][k % 3]
     if what == "n":
